@@ -87,6 +87,14 @@ func c08Cases(level int) ([]SCase, map[string][]string) {
 					want[id] = strs
 					cases = append(cases, SCase{ID: id, Schema: schema, Cfg: cfg, Axes: map[string]string{"pos": pos, "leaf": name}})
 				}
+				if typed && !sized && (l.name == "s2" || l.name == "i2" || l.name == "b2") {
+					// the type given as [T, "null"] with null among the members
+					ne := J{"type": A{l.typ, "null"}, "enum": append(append(A{}, l.vals...), nil)}
+					id := "C08/props/" + name + "/nullable-typed"
+					want[id] = strs
+					cases = append(cases, SCase{ID: id, Cfg: cfg, Axes: map[string]string{"pos": "props", "leaf": name + "/nullable-typed"},
+						Schema: J{"type": "object", "properties": J{"r": ne, "o": ne, "a": J{"type": "array", "items": ne}}, "required": A{"r"}}})
+				}
 				ed := space.With(e, "default", l.vals[0])
 				add("props", J{"type": "object", "properties": J{"r": e, "o": e}, "required": A{"r"}})
 				add("def", J{"type": "object", "properties": J{"d": J{"$ref": "#/$defs/E"}, "do": J{"$ref": "#/$defs/E"}}, "required": A{"d"}, "$defs": J{"E": e}})
